@@ -278,3 +278,45 @@ func (c *ethChain) childAt(parent *eth.Header, tm uint64, salt byte) *eth.Header
 func (c *ethChain) child(parent *eth.Header, dt uint64, salt byte) *eth.Header {
 	return c.childAt(parent, parent.Time+dt, salt)
 }
+
+// ---- ethereum, London era (main-net numbering: London from 12 965 000, Arrow Glacier not before 13 773 000) ------
+
+type londonChain struct{ genesis *eth.Header }
+
+func newLondonChain() *londonChain {
+	base := uint64(time.Now().Unix()) - 200000
+	return &londonChain{genesis: &eth.Header{UncleHash: etypes.EmptyUncleHash, Difficulty: big.NewInt(8000000000000000), Number: big.NewInt(13000000),
+		GasLimit: 30000000, GasUsed: 15000000, Time: base, Extra: []byte{}, BaseFee: big.NewInt(1000000000)}}
+}
+
+func (c *londonChain) genesisJSON() []byte { return hdrJSON(c.genesis) }
+
+// London difficulty rule (EIP-3554: bomb delayed by 9 700 000), written independently of poly's code
+func londonDiff(parent *eth.Header, tm uint64) *big.Int {
+	x := int64(1) - int64((tm-parent.Time)/9)
+	if x < -99 {
+		x = -99
+	}
+	d := new(big.Int).Div(parent.Difficulty, big.NewInt(2048))
+	d.Mul(d, big.NewInt(x))
+	d.Add(d, parent.Difficulty)
+	if d.Cmp(big.NewInt(131072)) < 0 {
+		d.SetInt64(131072)
+	}
+	fake := new(big.Int).Sub(parent.Number, big.NewInt(9699999))
+	if fake.Sign() > 0 {
+		period := new(big.Int).Div(fake, big.NewInt(100000)).Int64()
+		if period > 1 {
+			d.Add(d, new(big.Int).Lsh(big.NewInt(1), uint(period-2)))
+		}
+	}
+	return d
+}
+
+// child keeps gas limit, half-full blocks (base fee unchanged) and no uncles
+func (c *londonChain) child(parent *eth.Header, dt uint64) *eth.Header {
+	h := &eth.Header{ParentHash: parent.Hash(), UncleHash: etypes.EmptyUncleHash, Number: new(big.Int).Add(parent.Number, big.NewInt(1)),
+		GasLimit: parent.GasLimit, GasUsed: parent.GasLimit / 2, Time: parent.Time + dt, Extra: []byte{7}, BaseFee: new(big.Int).Set(parent.BaseFee)}
+	h.Difficulty = londonDiff(parent, h.Time)
+	return h
+}
